@@ -263,6 +263,8 @@ impl Engine for C17 {
                 let n = (l as i64 + delta).max(1) as u64;
                 let (cfg, prefix) = limit_cfg(&mut w, "loop", l, via_config);
                 let kind = *w.pick(&[
+                    "count-in-specs",
+                    "while-in-specs-template",
                     "count",
                     "while",
                     "until",
@@ -276,6 +278,12 @@ impl Engine for C17 {
                 let item = "<rect class=\"m\" xy=\"{{$i * 2}} 0\" wh=\"1\"/>";
                 let (body, marks) = match kind {
                     "count" => (format!("<loop count=\"{n}\" loop-var=\"i\">{item}</loop>"), n),
+                    // content of <specs> is evaluated once at definition time: its loops count too
+                    "count-in-specs" => (format!("<specs><loop count=\"{n}\" loop-var=\"i\"><rect id=\"s$i\" wh=\"1\"/></loop></specs><rect class=\"m\" wh=\"2\"/>"), 1),
+                    "while-in-specs-template" => (
+                        format!("<specs><g id=\"tw\"><var i=\"0\"/><loop while=\"lt($i, {n})\"><rect wh=\"1\"/><var i=\"{{{{$i + 1}}}}\"/></loop></g></specs><rect class=\"m\" wh=\"2\"/>"),
+                        1,
+                    ),
                     "count-expr" => (
                         format!("<var c=\"{n}\"/><loop count=\"{{{{$c}}}}\" loop-var=\"i\">{item}</loop>"),
                         n,
